@@ -3,6 +3,11 @@
 import json, subprocess, sys
 
 claimed = {
+ "C06": dict(
+   text="Deductive proof of the filter machinery for every measurement count (symbolic n, so word boundaries at 32, 64, ... are covered): mask operations (set/and/or/not, word level and bit level), Match.Test (bit i), Match.All / Match.Any (sound at bit level for all i < n, with a word-level witness otherwise), Match.Apply (keeps precisely the matching measurements in their original order — keepCount — and reports whether any remain; nothing else in the result changes), Filter.Match (leaves the result untouched), the .unit leaf (bit i set exactly when measurement i's base or written unit matches) and the NOT / AND / OR closures of filterOp: each is verified against the contract of the function type filterFn (a fresh mask with one bit per measurement, or a whole-result verdict, agreeing with its denotation den), so that AND denotes the conjunction and OR the disjunction of the operands' denotations, short-circuits included.  The parser (text to tree), NewFilter's tree walk and the fixed-list filter of makeProjection are covered by a bounded stand-in only.",
+   note="Trusted: calls through filterFn values satisfy the type contract (each filterFn under contract is verified against it; the key leaf's extractor call is unconstrained); regexp matching is a function of (regexp, string); uint32 masks are bit-vectors, indices mathematical integers.",
+   technique="contract-based deductive verification (own VC generator over go/ssa; bit-vectors; function-type contracts; opaque recursive spec functions; z3/cvc5) + bounded stand-in for the parser",
+   design="5/C06"),
  "C07": dict(
    text="Deductive proof of the expression tokenizer for all input strings: quotedWord stops at exactly the closing quote of the Go string literal (reference qEnd; this obligation exposed the escaped-backslash defect — fixed), bareWord ends at the first white-space or operator rune (rune-level reference bwEnd), regexp/regexpParseUntil, and next: the tokenizer always looks at a suffix of the original text, so every token and error offset lies inside the text; every index and slice expression is safe (no panic); every loop terminates and every non-EOF token consumes input.  The recursive-descent parser above the tokenizer and the semantic rejections in NewFilter/makeProjection are not under contract: covered by a bounded stand-in (expressibility in every term position, rejection list, no panic on all short texts).",
    note="Trusted: strconv.Unquote/Quote are functions of their argument (their being inverse is not proved), regexp.Compile, unicode.IsSpace (exact on ASCII/Latin-1), rune decoding of strings is utf8-shaped; string theory: uninterpreted Str with length/byte/substring axioms.",
